@@ -373,6 +373,11 @@ impl<'a, RK: RadioKind, C: Probe> Driver<'a, RK, C> {
         };
         let fault_before = self.bus.borrow().fault_hit.is_some();
         let res = self.exec_raw(call);
+        // a cold sleep that the driver carried out (a sleep() on a driver that is asleep already is a no-op
+        // and puts nothing to sleep anew)
+        if call == Call::SleepCold && matches!(res, Res::Ok) && before != RadioMode::Sleep {
+            self.bus.borrow_mut().chip.api_cold_sleep();
+        }
         self.bus.borrow_mut().chip.arm_duty_sleep(false);
         let after = self.mode();
         let after_name = mode_name(after);
@@ -992,6 +997,10 @@ impl<'a> Visitor for RunWan<'a> {
                 Wan::SetupRxc => last_setup_continuous = true,
                 Wan::SetupRx1 | Wan::SetupRx2 => last_setup_continuous = false,
                 _ => {}
+            }
+            // (the adapter's low_power() is a cold sleep)
+            if matches!(st, Wan::LowPower) && matches!(&r, Ok(Ok(Some(Ok(_))))) {
+                bus.borrow_mut().chip.api_cold_sleep();
             }
             let sh = bus.borrow();
             let chip_mode = sh.chip.mode();
